@@ -16,6 +16,7 @@ package pgo
 //@   at call go/parser.ParseFile set parsedComments = result0.Comments
 //@   ensures [C10] the-import-guards-are-the-imports-of-the-text-as-the-go-parser-reads-it: err == nil ==> file.Imports == parsedImports
 //@   ensures [C10] the-package-guard-is-the-package-clause-unless-it-was-supplied-by-the-augmentation: err == nil ==> file.Package == "" || file.Package == parsedPackage
+//@   ensures [C01,C10] a-package-clause-written-in-the-patch-is-always-the-guard: err == nil ==> file.Package == ite(len(ret("pgo/augment.Augment", 0, 1)) > 0 && ret("pgo/augment.Augment", 0, 1)[0].typ == dyn("*github.com/uber-go/gopatch/internal/pgo/augment.FakePackage"), "", parsedPackage)
 //@   ensures [C17] pattern-comments-are-the-comments-of-the-text: err == nil ==> file.Comments == parsedComments
 //@   ensures err == nil ==> file != nil && fresh(file)
 //@   assigns group(ast), parsedImports, parsedPackage, parsedComments, allof("E.pgo_augment_PosAdjustment"), allof("E.parse_section_LinePos")
